@@ -53,7 +53,19 @@ func (c config) String() string {
 	return fmt.Sprintf("minify=%s,target=%s,loader=%s", c.Minify, c.Target, c.Loader)
 }
 
-func transform(css string, c config) (string, []string) {
+// esbuild says so itself when a nested selector cannot be lowered without :is() for the target
+const warnNeedsIs = "Transforming this CSS nesting syntax is not supported in the configured target environment"
+
+func needsIs(msgs []api.Message) bool {
+	for _, m := range msgs {
+		if strings.Contains(m.Text, warnNeedsIs) {
+			return true
+		}
+	}
+	return false
+}
+
+func transform(css string, c config) (string, []string, bool) {
 	o := api.TransformOptions{Loader: api.LoaderCSS, LogLevel: api.LogLevelSilent, Sourcefile: "in.css"}
 	switch c.Loader {
 	case "global-css":
@@ -70,12 +82,13 @@ func transform(css string, c config) (string, []string) {
 		o.MinifyWhitespace = true
 	}
 	o.Engines = targetByName(c.Target).engines
+	o.LogLevel = api.LogLevelSilent
 	res := api.Transform(css, o)
 	var errs []string
 	for _, e := range res.Errors {
 		errs = append(errs, e.Text)
 	}
-	return string(res.Code), errs
+	return string(res.Code), errs, needsIs(res.Warnings)
 }
 
 // ---- node/css_eval.js
@@ -136,11 +149,12 @@ func evalJobs(r *core.Run, dom interface{}, jobs []nodeJob, procs int) map[strin
 // ---- one case through the real esbuild
 
 type outcome struct {
-	cfg   config
-	text  string
-	errs  []string
-	jobID string
-	envIx []int // spec environment index of each evaluated environment
+	warnIs bool // esbuild warned that the output needs :is(): environments without it are not judged
+	cfg    config
+	text   string
+	errs   []string
+	jobID  string
+	envIx  []int // spec environment index of each evaluated environment
 }
 
 type work struct {
@@ -323,7 +337,7 @@ func checkCases(r *core.Run, voc *Vocab, cases []*Case, stats *stats) {
 	core.Parallel(len(works), 8, func(i int) {
 		w := works[i]
 		for _, o := range w.outs {
-			o.text, o.errs = transform(w.text, o.cfg)
+			o.text, o.errs, o.warnIs = transform(w.text, o.cfg)
 		}
 	})
 	var jobs []nodeJob
@@ -353,7 +367,7 @@ func checkCases(r *core.Run, voc *Vocab, cases []*Case, stats *stats) {
 			}
 			j := nodeJob{ID: fmt.Sprintf("%d/out%d", i, k), CSS: o.text, Universe: c.Props}
 			for ix, e := range c.Envs {
-				if f, ok := outEnv(c, e, tg); ok {
+				if f, ok := outEnv(c, e, tg); ok && !(o.warnIs && !subset([]string{"is"}, f)) {
 					o.envIx = append(o.envIx, ix)
 					j.Envs = append(j.Envs, nodeEnv{Conds: voc.nodeConds(c, e), Feats: f})
 				}
@@ -540,8 +554,8 @@ func judge(r *core.Run, voc *Vocab, i int, w *work, results map[string]*nodeResu
 }
 
 func Run(r *core.Run) {
-	r.Assume("browsers consistent with the configured target: an environment is judged only if it understands every modelled syntax feature esbuild's compat table attributes to the target (target unset = all features), and :is()/:where()/complex :not() if it understands nesting; :where() and multi-argument :not() are free for every explicit target")
-	r.Assume("the document is the fixed 8-element tree of Css.tla; dynamic pseudo-classes match nothing; one origin (author)")
+	r.Assume("browsers consistent with the configured target: an environment is judged only if it understands every modelled syntax feature esbuild's compat table attributes to the target (target unset = all features), and :is()/:where()/complex :not() if it understands nesting; where esbuild itself warns that a nested selector cannot be lowered without :is() for the target, environments without :is() are not judged; :where() and multi-argument :not() are free for every explicit target")
+	r.Assume("the document is the fixed 9-element tree of Css.tla; dynamic pseudo-classes match nothing; one origin (author)")
 	r.Assume("nested rules come after their parent's declarations (no declarations after a nested rule); layers are not nested inside style rules; feature-using selectors are not put inside :is()/:where()/:not()")
 	r.Assume("values: exact notations only (named/hex/rgb()/hsl() on the 8-bit grid, alpha in {0,0.2,0.4,0.6,0.8,1}, terminating decimals, calc() over one unit or a linear combination); lab/lch/oklab/oklch/color-mix accuracy is not examined")
 	st := &stats{byFamily: map[string]int{}, notes: map[string]int{}}
@@ -710,7 +724,7 @@ func replay(r *core.Run, st *stats) {
 	w := &work{c: c, style: rec.Detail.Style}
 	w.text = voc.Render(c.Items, w.style)
 	o := &outcome{cfg: rec.Detail.Config}
-	o.text, o.errs = transform(w.text, o.cfg)
+	o.text, o.errs, o.warnIs = transform(w.text, o.cfg)
 	w.outs = []*outcome{o}
 	fmt.Printf("--- input\n%s\n--- output (%s)\n%s\n", w.text, o.cfg, o.text)
 	in := nodeJob{ID: "0/in", CSS: w.text}
@@ -722,7 +736,7 @@ func replay(r *core.Run, st *stats) {
 		tg := targetByName(o.cfg.Target)
 		j := nodeJob{ID: "0/out0", CSS: o.text, Universe: c.Props}
 		for ix, e := range c.Envs {
-			if f, ok := outEnv(c, e, tg); ok {
+			if f, ok := outEnv(c, e, tg); ok && !(o.warnIs && !subset([]string{"is"}, f)) {
 				o.envIx = append(o.envIx, ix)
 				j.Envs = append(j.Envs, nodeEnv{Conds: voc.nodeConds(c, e), Feats: f})
 			}
